@@ -70,7 +70,36 @@ func c07Hist(ctx *Ctx, idx int) *Hist {
 	return h
 }
 
+// runC07Exist is the scripted history of the recorded known finding: Exist() under a read fault.
+func runC07Exist(ctx *Ctx) Result {
+	e := driver.NewEnv("c07-exist", driver.Config{Walk: true})
+	e.SetCollection("a", "")
+	for i := 0; i < 5; i++ {
+		e.SetItem("a", []byte(fmt.Sprintf("k%d", i)), []byte("v"), int32(10*i+1), false)
+	}
+	e.Flush()
+	e.Reopen(true)
+	ft := &vfile.Fault{Nth: 1, Partial: -1}
+	e.Fault = ft
+	e.F.Arm(ft)
+	e.Exist(-1, "a", []byte("k3"))
+	e.F.Disarm()
+	e.Fault = nil
+	ctx.Stats["fault-points"]++
+	ctx.Stats["evaluations.extra"]++
+	ctx.Stats["nontrivial.extra"]++
+	for k, v := range e.Stats {
+		if hasPrefix(k, "fault.") {
+			ctx.Stats[k] += v
+		}
+	}
+	return Result{Hash: 7, NonTrivial: true, Viol: violOf(e), Sample: map[string]interface{}{"index": 0, "scripted": "Exist under a read fault", "ops": e.Trace}}
+}
+
 func runC07(ctx *Ctx, idx int) Result {
+	if idx == 0 {
+		return runC07Exist(ctx)
+	}
 	// ---- pass 1: fault free, record calls per step
 	h := c07Hist(ctx, idx)
 	e := h.E
